@@ -679,7 +679,11 @@ func checkC05(c *Ctx) *report.Result {
 				for _, k := range keys {
 					if k.Obj == cpu.ID && (k.Path == ".halted" || k.Path == ".haltbug") {
 						n++
-						if !allowed[outerFn(at.Parent())] {
+						names := map[string]bool{}
+						for f := range allowed {
+							names[fnName(f)] = true
+						}
+						if !allowed[outerFn(at.Parent())] && !c.onStack(names) {
 							viol[fnName(outerFn(at.Parent()))+" stores "+k.Path] = c.pos(at)
 						}
 					}
